@@ -3,7 +3,8 @@ correspondence generators and runners.  The real cpl.evolve2d is run with a logg
 array and the complete (n, (row, col), t) log are compared in Coq with the proved model."""
 import numpy as np
 from harness.driver import call_impl, cz, cnat, cbool, czlist, cgrid, chist, clist, cres
-from harness.twins import Logged2, PredLt, make_rule, coq_rule_spec, exact_int
+from harness.twins import (Logged2, PredLt, make_rule, coq_rule_spec, exact_int, dress, dress_pred, RULE_DRESSINGS,
+                           PRED_DRESSINGS)
 
 ID = 'C02'
 COQ_IMPORTS = ('From CPL Require Import Model.Base Model.Rules Model.Engine Model.Evolve2D Model.Evolve2DChecked '
@@ -23,7 +24,7 @@ ASSUMPTIONS = ['rule results (after truncation of value/scale towards zero for f
                'initial states are representable in the dtype of the automaton',
                'radii outside 0..min(R,C) are outside the property: only T = 1 (no step made) is run there',
                'memoize=False only (memoize=True / "recursive" are C04)']
-TRUSTED = ['Python twins Lin2 / LinCT2 / Script / Logged2 / PredLt in harness/twins.py']
+TRUSTED = ['Python twins Lin2 / LinCT2 / Script / Logged2 / PredLt and the dressings dress / dress_pred in harness/twins.py']
 
 DTYPES = ['int64', 'int32', 'uint8', 'float64']
 _CDTYPE = {'bool': 'DBool', 'int32': 'DInt32', 'int64': 'DInt64', 'uint8': 'DUInt8', 'uint64': 'DUInt64',
@@ -175,6 +176,10 @@ def generate(rng, tier):
         yield c
     for c in _bool_cases(rng, tier):
         yield c
+    for c in _dress_cases(rng, tier):
+        yield c
+    for c in _layout_cases(rng, tier):
+        yield c
 
 
 def _scribble_cases(rng, tier, assign_vn):
@@ -293,6 +298,77 @@ def _bool_cases(rng, tier):
         yield c
 
 
+_SHAPES_NS = [(2, 3), (3, 2), (3, 4), (4, 3), (2, 5), (5, 2), (3, 3), (1, 4), (4, 1), (2, 2)]
+
+
+def _dress_cases(rng, tier):
+    """the same rule behaviour behind a different Python spelling of the callable (twins.dress: *args, (n, *rest),
+    **opts, defaults, partial, bound method, lambda, subclasses of the library's rule classes, NumPy / 0-d / Python
+    return types); for callable timesteps the predicate is dressed too.  The model ignores the dressing."""
+    per = 5 if tier == 'quick' else 30
+    k = 0
+    for how in RULE_DRESSINGS:
+        for j in range(per):
+            R, C = _SHAPES_NS[(k + j) % len(_SHAPES_NS)]
+            r = rng.randint(0, min(R, C, 2))
+            ty = ('moore', 'vn')[(k + j) % 2]
+            dyn = j % 2 == 1
+            fam = ('script', 'linct', 'lin')[(k // 2 + j) % 3]
+            c = _case(rng, 'dress/%s/%s' % (how, 'dynamic' if dyn else 'fixed'), R, C, r, ty, rng.randint(2, 3),
+                      rng.randint(1, 2), fam, dtype=rng.choice(['int64', 'int32', 'float64']),
+                      mode='dyn' if dyn else 'fixed')
+            c['dress'] = how
+            if dyn:
+                c['pdress'] = PRED_DRESSINGS[(k // 2) % len(PRED_DRESSINGS)]
+            k += 1
+            yield c
+
+
+LAYOUTS = ['fortran', 'transposed', 'reversed_rows', 'reversed_cols', 'strided']
+
+
+def _lay_out(h, layout):
+    """the same logical (H, R, C) array, held in memory in a non-C-contiguous way"""
+    if layout == 'fortran':
+        a = np.asfortranarray(h)
+    elif layout == 'transposed':
+        a = np.array(h.transpose(0, 2, 1), order='C').transpose(0, 2, 1)
+    elif layout == 'reversed_rows':
+        a = np.array(h[:, ::-1, :], order='C')[:, ::-1, :]
+    elif layout == 'reversed_cols':
+        a = np.array(h[:, :, ::-1], order='C')[:, :, ::-1]
+    elif layout == 'strided':
+        big = np.full((h.shape[0], 2 * h.shape[1] + 1, 2 * h.shape[2] + 1), 55, dtype=h.dtype)
+        big[:, 1::2, 1::2] = h
+        a = big[:, 1::2, 1::2]
+    else:
+        raise ValueError(layout)
+    assert a.shape == h.shape and a.dtype == h.dtype and np.array_equal(a, h)
+    return a
+
+
+def _layout_cases(rng, tier):
+    """the SAME logical history presented as a non-C-contiguous array; the property is about the grid, not about the
+    memory layout of the array that holds it.  Stateful Script rules and logged rules, so the visiting order shows;
+    fixed and callable timesteps (the callable path steps from a VIEW of the caller's array); H = 1 and H > 1."""
+    per = 16 if tier == 'quick' else 120
+    k = 0
+    for layout in LAYOUTS:
+        for j in range(per):
+            R, C = _SHAPES_NS[(k + j) % len(_SHAPES_NS)] if j % 8 != 7 else (rng.randint(2, 6), rng.randint(2, 6))
+            r = rng.randint(0, min(R, C, 2))
+            ty = ('moore', 'vn')[j % 2]
+            dyn = j % 4 != 3
+            fam = ('script', 'script', 'linct')[(j // 2) % 3]
+            H = 1 + (j // 4) % 2
+            c = _case(rng, 'layout/%s/%s/H=%d' % (layout, 'dynamic' if dyn else 'fixed', H), R, C, r, ty,
+                      rng.randint(2, 3), H, fam, dtype=rng.choice(['int64', 'int32', 'float64', 'uint8']),
+                      style=rng.choice(['index', 'random']), mode='dyn' if dyn else 'fixed')
+            c['layout'] = layout
+            k += 1
+            yield c
+
+
 def _assign_vn():
     import os
     return ASSIGN_VN_DEFAULT and os.environ.get('C02_SCRIBBLE_ASSIGN_VN') != '0'
@@ -301,6 +377,8 @@ def _assign_vn():
 def run_impl(c):
     import cellpylib as cpl
     ca = np.array(c['hist'], dtype=np.dtype(c['dtype']))
+    if c.get('layout'):
+        ca = _lay_out(ca, c['layout'])
     inner = make_rule(c['rule'], dim=2)
     if c.get('scribble'):
         inner = Scribble(inner, c.get('scribble_mode', 'data'))
@@ -309,9 +387,10 @@ def run_impl(c):
     if c.get('kinds'):
         inner = KindAt(inner, c['kinds'])
     rule = Logged2(inner)           # the log is taken (as copies) before the inner rule runs
+    handed = dress(rule, c.get('dress'))        # the dressing is the OUTERMOST wrapper of what evolve2d receives
     nb = 'Moore' if c['ty'] == 'moore' else 'von Neumann'
-    ts = c['T'] if c['mode'] == 'fixed' else PredLt(c['T'])
-    res = call_impl(lambda: cpl.evolve2d(ca, timesteps=ts, apply_rule=rule, r=c['r'], neighbourhood=nb, memoize=False))
+    ts = c['T'] if c['mode'] == 'fixed' else dress_pred(PredLt(c['T']), c.get('pdress'))
+    res = call_impl(lambda: cpl.evolve2d(ca, timesteps=ts, apply_rule=handed, r=c['r'], neighbourhood=nb, memoize=False))
     if res[0] != 'ok':
         return list(res)
     out = np.asarray(res[1])
